@@ -55,7 +55,8 @@ def ob_fragment(ctx):
     parts = mk_parts(ctx, "f", NP, n)
     ctx.assume(And([e - s < n for (s, e, _) in parts]))
     quals = {"label": ["feat"], "note": ["a", "b"]}
-    feat = build_feature(st, parts, "CDS", quals, fid="F1")
+    ftype = P.get("ftype", "CDS")  # "source": provenance written by an earlier assembly, inherited like any feature
+    feat = build_feature(st, parts, ftype, quals, fid="F1")
     data = tags(n)
     rec = st.record.CircularRecord(st.Seq(data), id="plasmid", features=[feat])
     cls = Mod if role == "module" else Vec
@@ -73,7 +74,9 @@ def ob_fragment(ctx):
                 "fragment-letters")
     inside = And([mod(ps - a0, n) + (pe - ps) <= flen for (ps, pe, _) in parts])
     empty_part = Or([Eq(pe, ps) for (ps, pe, _) in parts])
-    imgs = [g for g in frag.features if g.type != "source"]
+    generated = [g for g in frag.features if g.type == "source" and g.id != "F1" and g.qualifiers.get("plasmid") == "plasmid"]
+    ctx.require(len(generated) == 1, "generated-source-feature-count:%d" % len(generated))
+    imgs = [g for g in frag.features if g is not generated[0]]
     ctx.require(len(imgs) <= 1, "feature-duplicated")
     ctx.witness("inherited" if imgs else "dropped")
     if not imgs:
@@ -81,7 +84,7 @@ def ob_fragment(ctx):
         return True
     g = imgs[0]
     ctx.require(Or(inside, empty_part), "feature-overlapping-a-discarded-region-was-kept")
-    ctx.require(g.type == "CDS" and g.id == "F1" and quals_equal(g.qualifiers, quals), "type-or-qualifiers-changed")
+    ctx.require(g.type == ftype and g.id == "F1" and quals_equal(g.qualifiers, quals), "type-or-qualifiers-changed")
     gp = parts_of(g)
     ctx.require(len(gp) == NP, "part-count-changed")
     for j, ((ps, pe, pst), (qs, qe, qst)) in enumerate(zip(parts, gp)):
@@ -163,6 +166,10 @@ def obligations(tier, seed):
                 obs.append(Ob("fragment of a %s n=%d parts=%d" % (role, n, parts), ob_fragment,
                               dict(n=n, role=role, parts=parts), samples=6, cost=n ** 2 * 20 ** parts,
                               expect_witness=("inherited", "dropped")))
+                if parts == 1 and n in (5, 9, 13):
+                    obs.append(Ob("fragment of a %s n=%d carrying an inherited source feature" % (role, n), ob_fragment,
+                                  dict(n=n, role=role, parts=parts, ftype="source"), samples=6, cost=n ** 2 * 20,
+                                  expect_witness=("inherited", "dropped")))
     for m in (1, 2):
         for two in range(m + 1):
             obs.append(Ob("concatenation m=%d (two-part feature in element %d)" % (m, two), ob_concat,
